@@ -18,7 +18,7 @@ import ast
 from ..affine import Aff, sym
 from ..astutil import (u, atoms, guard_map, path_atoms, stmts_in, calls_in, callee, callee_attr, reaching_def, def_value,
                        PARAM, AMBIGUOUS, get_arg, get_kw, is_none, is_const, raised_name, block_path, assigns_to, assigned_targets,
-                       always_exits)
+                       always_exits, walk_no_nested)
 from ..report import Undecided
 
 MET = 'gambit.metric'
@@ -1144,6 +1144,16 @@ def check_array(ctx):
     rep.add('B3', fi.site(qc[0] if qc else None), 'the query array itself (cast, not copied or reordered) is what both paths see', len(qc) == 1 and _is_cast(m, fi, qc[0].value) and isinstance(qc[0].value.args[0], ast.Name) and qc[0].value.args[0].id == qp, expected=f'{qp} = _cast_sigs_array({qp})',
             found=[u(x) for x in qc], stmt='query operand')
     every_iteration(V, s, loop, 'the per-item kernel store')
+
+    def leaf_for(n):
+        def leaf(e):
+            if isinstance(e, ast.Call) and isinstance(e.func, ast.Name) and e.func.id == 'len' and len(e.args) == 1 and not e.keywords and u(e.args[0]) in (rp, 'out'):
+                return n
+            if isinstance(e, ast.Attribute) and u(e.value) == 'out' and e.attr in ('size', 'shape'):
+                return n if e.attr == 'size' else (n,)
+            return _NoEval
+        return leaf
+    check_exits(rep, 'B4', V, m, fi, [st, loop], [(f'{k} reference(s)', leaf_for(k)) for k in range(1, 5)], {'out', 'progress'}, 'kernel calls')
     extra = [x for x in assigns_to(fi.node, qp) if x not in qc] + assigns_to(fi.node, rp)
     rep.require(not extra, f'jaccarddist_array: operand parameter rebound by `{u(extra[0])[:60] if extra else ""}`; its uses cannot be compared across statements')
 
@@ -1436,6 +1446,23 @@ def check_matrix(ctx):
     rep.add('B5', fc.site(lp), 'chunk_slices tiles [0, n): starts at 0, yields [start, start+size), continues at the previous stop while start < n (no gap, no overlap)', okt,
             expected='start = 0; while start < n: yield slice(start, start + size); start = start + size', found=[u(s) for s in lp.body], stmt='tiling')
     every_iteration(V, st, chunk_loop, 'the jaccarddist_array call')
+
+    def leaf_for(nq, nr, cs):
+        def leaf(e):
+            if isinstance(e, ast.Name) and e.id == csp:
+                return cs
+            if isinstance(e, ast.Call) and isinstance(e.func, ast.Name) and e.func.id == 'len' and len(e.args) == 1 and not e.keywords:
+                a = u(e.args[0])
+                if a == qp or a == 'out':
+                    return nq
+                if a in (rp, rip):
+                    return nr
+            if isinstance(e, ast.Attribute) and u(e.value) == 'out' and e.attr in ('size', 'shape'):
+                return nq * nr if e.attr == 'size' else (nq, nr)
+            return _NoEval
+        return leaf
+    check_exits(rep, 'B5', V, m, fi, [chunk_loop], [(f'{a} x {b} cells' + (f', chunksize {c_}' if c_ else ''), leaf_for(a, b, c_)) for a in range(1, 4) for b in range(1, 4) for c_ in (None, 1, 2, 5)],
+                {rip, 'out', 'progress'}, 'rows are computed')
     sequence_stable(V, rp)
     rep.require(not assigns_to(fi.node, qp), f'jaccarddist_matrix: sequence parameter `{qp}` is rebound')
 
@@ -1637,6 +1664,149 @@ def _opaque_def(e):
     return term(e) and isinstance(e.bind, (ast.Assign, ast.AnnAssign, ast.AugAssign))
 
 
+class _NoEval(Exception):
+    pass
+
+
+def _pairwise_leaf(m, fi, n, flat, sp, ip, fp):
+    """Concrete values of the quantities a guard of jaccarddist_pairwise may mention, for n selected signatures."""
+    def leaf(e):
+        if isinstance(e, ast.Name) and e.id == fp:
+            return flat
+        if isinstance(e, ast.Call) and isinstance(e.func, ast.Name) and e.func.id == 'len' and len(e.args) == 1 and not e.keywords and isinstance(e.args[0], ast.Name):
+            a = e.args[0].id
+            if a in (sp, ip):
+                return n
+            if a == 'out':
+                return n * (n - 1) // 2 if flat else n
+        if isinstance(e, ast.Attribute) and isinstance(e.value, ast.Name) and e.value.id == 'out' and e.attr in ('size', 'shape'):
+            if e.attr == 'size':
+                return n * (n - 1) // 2 if flat else n * n
+            return (n * (n - 1) // 2,) if flat else (n, n)
+        return _NoEval
+    return leaf
+
+
+def _guards_hold(V, m, fi, stmt, n, flat, sp, ip, fp):
+    return _guards_eval(V, m, fi, stmt, _pairwise_leaf(m, fi, n, flat, sp, ip, fp), skip={ip, 'progress', 'out'})
+
+
+def _guards_eval(V, m, fi, stmt, leaf, skip=frozenset(), unknown=None):
+    """Do all structured guards (enclosing tests and earlier early exits) on the way to `stmt` hold?  The tests are evaluated
+    concretely: `leaf(e)` gives the value of a quantity (a length, out.size, a flag) or _NoEval; names are followed to their single
+    definition; num_pairs is n(n-1)/2.  A test over nothing but the names in `skip` (selector / buffer presence) is passed over -
+    both of its arms are followed by the other rules.  Anything else in a guard is outside the rule (exit 2), unless `unknown` is a
+    list: then the test is recorded there and taken to hold."""
+    fn = fi.node
+
+    def single_def(name, at):
+        d = reaching_def(fn, name, at)
+        if d in (None, PARAM, AMBIGUOUS) or def_value(d) is None:
+            return None
+        return d
+
+    def ev(e, at, depth=0):
+        if depth > 12:
+            raise _NoEval(u(e))
+        v = leaf(e)
+        if v is not _NoEval:
+            return v
+        if isinstance(e, ast.Constant):
+            return e.value
+        if isinstance(e, ast.Name):
+            d = single_def(e.id, at)
+            if d is None:
+                raise _NoEval(e.id)
+            return ev(def_value(d), d, depth + 1)
+        if isinstance(e, ast.Call) and m.resolve_call(fi, e) == f'{MET}.num_pairs' and len(e.args) == 1 and not e.keywords:
+            k = ev(e.args[0], at, depth + 1)
+            return k * (k - 1) // 2
+        if isinstance(e, ast.Tuple):
+            return tuple(ev(x, at, depth + 1) for x in e.elts)
+        if isinstance(e, ast.IfExp):
+            try:
+                t = ev(e.test, at, depth + 1)
+            except _NoEval:
+                a, b = ev(e.body, at, depth + 1), ev(e.orelse, at, depth + 1)
+                if a == b:
+                    return a
+                raise
+            return ev(e.body if t else e.orelse, at, depth + 1)
+        if isinstance(e, ast.UnaryOp) and isinstance(e.op, ast.Not):
+            return not ev(e.operand, at, depth + 1)
+        if isinstance(e, ast.UnaryOp) and isinstance(e.op, ast.USub):
+            return -ev(e.operand, at, depth + 1)
+        if isinstance(e, ast.BoolOp):
+            vals = [ev(x, at, depth + 1) for x in e.values]
+            return all(vals) if isinstance(e.op, ast.And) else any(vals)
+        if isinstance(e, ast.BinOp) and isinstance(e.op, (ast.Add, ast.Sub, ast.Mult, ast.FloorDiv)):
+            a, b = ev(e.left, at, depth + 1), ev(e.right, at, depth + 1)
+            if not all(isinstance(x, int) and not isinstance(x, bool) for x in (a, b)) or (isinstance(e.op, ast.FloorDiv) and b == 0):
+                raise _NoEval(u(e))
+            return {ast.Add: a + b, ast.Sub: a - b, ast.Mult: a * b}.get(type(e.op), None) if not isinstance(e.op, ast.FloorDiv) else a // b
+        if isinstance(e, ast.Compare) and len(e.ops) == 1:
+            a, b = ev(e.left, at, depth + 1), ev(e.comparators[0], at, depth + 1)
+            op = e.ops[0]
+            try:
+                if isinstance(op, ast.Eq):
+                    return a == b
+                if isinstance(op, ast.NotEq):
+                    return a != b
+                if isinstance(op, ast.Lt):
+                    return a < b
+                if isinstance(op, ast.LtE):
+                    return a <= b
+                if isinstance(op, ast.Gt):
+                    return a > b
+                if isinstance(op, ast.GtE):
+                    return a >= b
+            except TypeError:
+                pass
+            raise _NoEval(u(e))
+        raise _NoEval(u(e))
+
+    for test, pol in V.gm.get(stmt, ()):
+        names = {x.id for x in ast.walk(test) if isinstance(x, ast.Name)}
+        if names and names <= set(skip) and not any(isinstance(x, ast.Attribute) for x in ast.walk(test)):
+            continue        # selector / buffer presence tests: both arms are followed by the rules above
+        try:
+            if bool(ev(test, V.test_owner.get(id(test)) or stmt)) != bool(pol):
+                return False
+        except _NoEval as ex:
+            if unknown is not None:
+                unknown.append(u(test)[:60])
+                continue
+            raise Undecided(f'{fi.name}: a guard on the way to line {getattr(stmt, "lineno", "?")} tests `{u(test)[:60]}`, which the exit rule cannot evaluate ({ex})')
+    return True
+
+
+def check_exits(rep, rule, V, m, fi, work, leaves, skip, what):
+    """No exit of a bulk function leaves cells of a non-empty output unwritten: a `return` that precedes a work site (kernel call,
+    delegation, row loop) is fine when another work site guarded by a subset of its own guards precedes it (it returns after its
+    branch did the work); otherwise its guards are evaluated for every non-empty size in `leaves` - if they can all hold, cells are
+    returned unwritten."""
+    last = fi.node.body[-1]
+    bad = []
+
+    def gset(st):
+        return {(id(t), bool(p)) for t, p in V.gm.get(st, ())}
+    for r in [x for x in walk_no_nested(fi.node) if isinstance(x, ast.Return) and x is not last]:
+        if not any(V.before(r, w) for w in work):
+            continue
+        if any(V.before(w, r) and gset(w) <= gset(r) for w in work):
+            continue
+        for label, leaf in leaves:
+            unk = []
+            if _guards_eval(V, m, fi, r, leaf, skip=skip, unknown=unk):
+                if unk:
+                    raise Undecided(f'{fi.name}: the return at line {r.lineno} precedes the {what} under a test the exit rule cannot evaluate: {unk[0]}')
+                bad.append(f'line {r.lineno}: returns for {label} before the {what}')
+                break
+    rep.add(rule, fi.site(), f'{fi.name}: no exit leaves cells of a non-empty output unwritten', not bad, expected='early exits only when the output is empty', found=bad[:3] or 'ok', stmt=f'{fi.name} exits')
+
+
+
+
 def check_pairwise(ctx):
     """The rows may be filled at ONE call site or at several (e.g. one loop / one branch per layout): every site is checked under
     its own path condition, and the sites together must cover the square and the condensed layout."""
@@ -1796,7 +1966,33 @@ def check_pairwise(ctx):
                     found=mshow, stmt='mirror')
     fd = [c2 for c2 in calls_in(fi.node) if u(c2.func) in ('np.fill_diagonal', 'numpy.fill_diagonal')]
     okd = len(fd) == 1 and ('false', fp) in V.path(V.stmt_of(fd[0])) and not V.loops_around(V.stmt_of(fd[0]))
-    rep.add('B6', fi.site(fd[0] if fd else None), 'zero diagonal is written in square mode', okd, expected='np.fill_diagonal(out, 0) when not flat', found=[u(x) for x in fd], stmt='diagonal')
+    # ... for EVERY non-empty selection: the guards on the way to it (early exits included) are evaluated for n = 1..5
+    skipped_d = []
+    if okd:
+        skipped_d = [k for k in range(1, 6) if not _guards_hold(V, m, fi, V.stmt_of(fd[0]), k, False, sp, ip, fp)]
+        okd = not skipped_d
+    rep.add('B6', fi.site(fd[0] if fd else None), 'zero diagonal is written in square mode, for every number of signatures', okd, expected='np.fill_diagonal(out, 0) whenever not flat',
+            found=[u(x) for x in fd] + ([f'not reached for n = {skipped_d} (guard / early exit before it)'] if skipped_d else []), stmt='diagonal')
+    # ... and no exit leaves work undone: an early return is taken only when no row is due (n < 2), and for one signature in square
+    # mode only after the diagonal was written; the row loops are entered whenever a row is due
+    bad_exit = []
+    last = fi.node.body[-1]
+    for r in [x for x in walk_no_nested(fi.node) if isinstance(x, ast.Return) and x is not last]:
+        for k in range(0, 6):
+            for fl in (True, False):
+                if not _guards_hold(V, m, fi, r, k, fl, sp, ip, fp):
+                    continue
+                rows_done = all(V.before(lp, r) and not any(x is r for x in ast.walk(lp)) for _, _, lp in sites)
+                diag_done = bool(fd) and V.before(V.stmt_of(fd[0]), r) and _guards_hold(V, m, fi, V.stmt_of(fd[0]), k, fl, sp, ip, fp)
+                if (k >= 2 and not rows_done) or (k >= 1 and not fl and not (diag_done or rows_done and okd)):
+                    bad_exit.append(f'line {r.lineno}: returns for n = {k}, flat = {fl} before ' + ('the rows are computed' if k >= 2 and not rows_done else 'the diagonal is written'))
+    for _, _, lp in sites:
+        for k in range(2, 6):
+            for fl in (True, False):
+                if not _guards_hold(V, m, fi, lp, k, fl, sp, ip, fp) and not any(_guards_hold(V, m, fi, l2, k, fl, sp, ip, fp) for _, _, l2 in sites):
+                    bad_exit.append(f'line {lp.lineno}: the row loop is not entered for n = {k}, flat = {fl}')
+    rep.add('B6', fi.site(), 'no exit leaves cells unwritten: rows are computed whenever there are two or more signatures, the diagonal whenever the matrix is square and non-empty',
+            not bad_exit, expected='early exits only when nothing is left to write', found=sorted(set(bad_exit))[:4] or 'ok', stmt='exits')
     fn = m.func(f'{MET}.num_pairs')
     rep.functions.add(fn.qualname)
     r = [x for x in fn.node.body if isinstance(x, ast.Return)]
@@ -1959,6 +2155,15 @@ VARIANTS = [
     V('column signatures ignore the index selection', 'B', _P, "col_sigs = sigs[cols] if indices is None else sigs[indices[cols]]", "col_sigs = sigs[cols]", 'B6'),
     V('result post-processed', 'B', _P, "\t\t\t\tmeter.increment(len(ref_chunk))\n\n\treturn out", "\t\t\t\tmeter.increment(len(ref_chunk))\n\n\treturn np.round(out, 6)", 'B1'),
     V('out allocated as float64', 'B', _P, "out = np.empty((nqueries, nrefs), SCORE_DTYPE)", "out = np.empty((nqueries, nrefs), np.float64)", 'B1'),
+    V('guard clause: no pairs -> return, placed before the diagonal is zeroed (seeded C05e / C15e)', 'B', _P, "\tif flat:\n\t\tnext_out = 0\n\telse:\n\t\tnp.fill_diagonal(out, 0)\n", "\tif npairs == 0:\n\t\treturn out\n\tif flat:\n\t\tnext_out = 0\n\telse:\n\t\tnp.fill_diagonal(out, 0)\n", 'B6'),
+    V('E: guard clause: empty output -> return (pairwise)', 'E', _P, "\tif flat:\n\t\tnext_out = 0\n\telse:\n\t\tnp.fill_diagonal(out, 0)\n", "\tif out.size == 0:\n\t\treturn out\n\tif flat:\n\t\tnext_out = 0\n\telse:\n\t\tnp.fill_diagonal(out, 0)\n"),
+    V('E: guard clause: no pairs -> return, after the diagonal', 'E', _P, "\tif flat:\n\t\tnext_out = 0\n\telse:\n\t\tnp.fill_diagonal(out, 0)\n", "\tif flat:\n\t\tnext_out = 0\n\telse:\n\t\tnp.fill_diagonal(out, 0)\n\tif npairs == 0:\n\t\treturn out\n"),
+    V('guard clause: fewer than three signatures -> return (pairwise)', 'B', _P, "\tif flat:\n\t\tnext_out = 0\n\telse:\n\t\tnp.fill_diagonal(out, 0)\n", "\tif flat:\n\t\tnext_out = 0\n\telse:\n\t\tnp.fill_diagonal(out, 0)\n\tif n <= 2:\n\t\treturn out\n", 'B6'),
+    V('guard clause: single query -> return (matrix)', 'B', _P, "\tif chunksize is None:\n\t\tref_slices = [slice(0, nrefs)]", "\tif nqueries == 1:\n\t\treturn out\n\tif chunksize is None:\n\t\tref_slices = [slice(0, nrefs)]", 'B5'),
+    V('E: guard clause: empty output -> return (matrix)', 'E', _P, "\tif chunksize is None:\n\t\tref_slices = [slice(0, nrefs)]", "\tif out.size == 0:\n\t\treturn out\n\tif chunksize is None:\n\t\tref_slices = [slice(0, nrefs)]"),
+    V('guard clause: single reference -> return (array)', 'B', _P, "\tif isinstance(refs, SignatureArray):\n\t\tvalues = _cast_sigs_array(refs.values)", "\tif len(refs) == 1:\n\t\treturn out\n\tif isinstance(refs, SignatureArray):\n\t\tvalues = _cast_sigs_array(refs.values)", 'B4'),
+    V('E: guard clause: no references -> return (array)', 'E', _P, "\tif isinstance(refs, SignatureArray):\n\t\tvalues = _cast_sigs_array(refs.values)", "\tif len(refs) == 0:\n\t\treturn out\n\tif isinstance(refs, SignatureArray):\n\t\tvalues = _cast_sigs_array(refs.values)"),
+    V('E: array fast path returns from its own branch', 'E', _P, "\t\t_cmetric._jaccarddist_parallel(query, values, bounds, out)\n", "\t\t_cmetric._jaccarddist_parallel(query, values, bounds, out)\n\t\treturn out\n"),
     V('diagonal not zeroed', 'B', _P, "\t\tnp.fill_diagonal(out, 0)", "\t\tpass", 'B6'),
     V('consecutive-run fast path judged by the endpoints only (seeded C05a)', 'B', 'src/gambit/sigs/base.py',
       "\tdef _getitem_int_array(self, indices):\n\t\tout = SignatureArray.uninitialized(",
